@@ -1933,4 +1933,134 @@ theorem Reach.step {cfg : Cfg} {h : Heap} {op : Op} {r : Res} (hr : Reach cfg h)
   exact this ops _ hr
 
 
+
+/-! ### slist at pointer level: representation predicate -/
+
+/-- following `next` from `cur` visits exactly the addresses of `l` and then the head -/
+def Chain (m : Links) (head : Nat) : Nat → List Nat → Prop
+  | cur, [] => cur = head
+  | cur, c :: r => cur = c ∧ Chain m head (m c) r
+
+/-- the `next` fields represent the list `l` hanging off `head` -/
+def Rep (m : Links) (head : Nat) (l : List Nat) : Prop :=
+  Chain m head (m head) l ∧ l.Nodup ∧ head ∉ l
+
+theorem chain_upd {m : Links} {head a v cur : Nat} {l : List Nat} (ha : a ∉ l) :
+    Chain (upd m a v) head cur l ↔ Chain m head cur l := by
+  induction l generalizing cur with
+  | nil => simp [Chain]
+  | cons c r ih =>
+    simp only [List.mem_cons, not_or] at ha
+    simp only [Chain]
+    have hc : upd m a v c = m c := by simp only [upd]; rw [if_neg (fun h => ha.1 h.symm)]
+    rw [hc, ih ha.2]
+
+theorem rep_init (m : Links) (head : Nat) : Rep (slistInit m head) head [] := by
+  simp [Rep, Chain, slistInit, upd]
+
+theorem rep_add {m : Links} {head link : Nat} {l : List Nat} (hr : Rep m head l) (hl : link ∉ l)
+    (hh : link ≠ head) : Rep (slistAdd m link head) head (link :: l) := by
+  obtain ⟨hc, hnd, hhd⟩ := hr
+  refine ⟨?_, List.nodup_cons.2 ⟨hl, hnd⟩, by simp only [List.mem_cons, not_or]; exact ⟨fun h => hh h.symm, hhd⟩⟩
+  have h1 : slistAdd m link head head = link := by simp [slistAdd, upd]
+  have h2 : slistAdd m link head link = m head := by simp [slistAdd, upd, hh]
+  simp only [Chain, h1, h2, true_and]
+  unfold slistAdd
+  rw [chain_upd hhd, chain_upd hl]
+  exact hc
+
+theorem rep_pop_cons {m : Links} {head c : Nat} {r : List Nat} (hr : Rep m head (c :: r)) :
+    slistPopFirst m head = (some c, upd m head (m c)) ∧ Rep (upd m head (m c)) head r := by
+  obtain ⟨hc, hnd, hhd⟩ := hr
+  simp only [Chain] at hc
+  simp only [List.mem_cons, not_or] at hhd
+  have hne : m head ≠ head := by rw [hc.1]; exact fun h => hhd.1 h.symm
+  refine ⟨by simp only [slistPopFirst]; rw [if_neg hne, hc.1], ?_, (List.nodup_cons.1 hnd).2, hhd.2⟩
+  have h1 : upd m head (m c) head = m c := by simp [upd]
+  rw [h1, chain_upd hhd.2]
+  exact hc.2
+
+theorem rep_pop_nil {m : Links} {head : Nat} (hr : Rep m head []) :
+    slistPopFirst m head = (none, m) ∧ slistEmpty m head = true := by
+  obtain ⟨hc, _, _⟩ := hr
+  simp only [Chain] at hc
+  simp [slistPopFirst, slistEmpty, hc]
+
+theorem rep_empty_iff {m : Links} {head : Nat} {l : List Nat} (hr : Rep m head l) :
+    slistEmpty m head = true ↔ l = [] := by
+  cases l with
+  | nil => simp [(rep_pop_nil hr).2]
+  | cons c r =>
+    obtain ⟨hc, _, hhd⟩ := hr
+    simp only [Chain] at hc
+    simp only [List.mem_cons, not_or] at hhd
+    simp only [slistEmpty, beq_iff_eq, hc.1]
+    constructor
+    · intro h; exact absurd h.symm hhd.1
+    · intro h; cases h
+
+theorem sizeLoop_chain {m : Links} {head : Nat} {l : List Nat} : ∀ {fuel cur i : Nat},
+    Chain m head cur l → head ∉ l → l.length < fuel → slistSizeLoop m head fuel cur i = i + l.length := by
+  induction l with
+  | nil =>
+    intro fuel cur i hc _ hf
+    simp only [Chain] at hc
+    cases fuel with
+    | zero => simp at hf
+    | succ f => simp [slistSizeLoop, hc]
+  | cons c r ih =>
+    intro fuel cur i hc hh hf
+    simp only [Chain] at hc
+    simp only [List.mem_cons, not_or] at hh
+    cases fuel with
+    | zero => simp at hf
+    | succ f =>
+      simp only [slistSizeLoop, hc.1]
+      rw [if_neg (fun h => hh.1 h.symm)]
+      rw [ih hc.2 hh.2 (by simp only [List.length_cons] at hf; omega)]
+      simp only [List.length_cons]; omega
+
+theorem inLoop_chain {m : Links} {head x : Nat} {l : List Nat} : ∀ {fuel cur : Nat},
+    Chain m head cur l → head ∉ l → l.length < fuel → slistInLoop m head x fuel cur = l.contains x := by
+  induction l with
+  | nil =>
+    intro fuel cur hc _ hf
+    simp only [Chain] at hc
+    cases fuel with
+    | zero => simp at hf
+    | succ f => simp [slistInLoop, hc]
+  | cons c r ih =>
+    intro fuel cur hc hh hf
+    simp only [Chain] at hc
+    simp only [List.mem_cons, not_or] at hh
+    cases fuel with
+    | zero => simp at hf
+    | succ f =>
+      simp only [slistInLoop, hc.1]
+      rw [if_neg (fun h => hh.1 h.symm)]
+      by_cases hx : c = x
+      · simp [hx]
+      · rw [if_neg hx, ih hc.2 hh.2 (by simp only [List.length_cons] at hf; omega)]
+        simp only [List.contains_cons]
+        have : (x == c) = false := by simp; exact fun h => hx h.symm
+        rw [this, Bool.false_or]
+
+theorem engageLoopP_rep (e stop head : Nat) : ∀ (fuel it : Nat) (m : Links) (fl : List Nat),
+    Rep m head fl → (∀ c ∈ fl, c < it) → stop ≤ head → 0 < e →
+    Rep (engageLoopP e stop head fuel it m) head (engageLoop e stop fuel it fl) := by
+  intro fuel
+  induction fuel with
+  | zero => intro it m fl hr _ _ _; exact hr
+  | succ f ih =>
+    intro it m fl hr hlt hhead he
+    simp only [engageLoopP, engageLoop]
+    split
+    · rename_i hit
+      refine ih (it + e) _ _ (rep_add hr (fun h => Nat.lt_irrefl _ (hlt it h)) (by omega)) ?_ hhead he
+      intro c hc
+      rcases List.mem_cons.1 hc with rfl | hc
+      · omega
+      · have := hlt c hc; omega
+    · exact hr
+
 end Igris.C10
